@@ -280,7 +280,12 @@ def run(ctx):
         for p in rc:
             v = agg_variant(p.end[1])[2][0]
             ok = ok and is_call(v, "OsStringExt for std::ffi::OsString>::from_vec", "::from_vec") and not mentions(v, lambda s: is_call(s, *LOSSY_CALLS))
+            # the stored bytes are the line up to its end: only leading blanks may have been removed
+            tail_cut = [mir.norm_path(x[1]).split("::")[-1] for x in subterms(v) if is_call(x, "::trim_ascii", "::trim", "::trim_end", "::trim_ascii_end", "::trim_end_matches", "::strip_suffix", "::split_last", "::truncate")]
+            rng = [agg_variant(call_args(x)[1]) for x in subterms(v) if is_index_call(x) and agg_variant(call_args(x)[1])]
+            tail_cut += ["[..n]" for r in rng if r[1] in ("RangeTo", "RangeToInclusive") or (r[1] == "Range" and not is_call(strip_refs(r[2][1]), "::len"))]
+            ok = ok and not tail_cut
             pre = [c for c in p.conds() if is_call(c.term, "[T]>::starts_with") and const_bytes(call_args(c.term)[1]) == sp["rcsid_prefix"]]
             ok = ok and bool(pre) and pre[-1].fact == ("eq", True)
         ctx.check(ok, "D2-RCSID-RAW", LFB, "rcsid", "RcsId = the raw line (from_vec) when it starts with \"$NetBSD: \"",
-                  "the RCS Id is not stored as the raw bytes of a line starting with \"$NetBSD: \"", fn_span(body))
+                  "the RCS Id is not stored as the raw bytes (through the end of the line: trailing bytes are data) of a line starting with \"$NetBSD: \"", fn_span(body))
